@@ -362,6 +362,19 @@ func randScalar(r *prng.Rng, fd protoreflect.FieldDescriptor) protoreflect.Value
 		for i := range b {
 			b[i] = byte(32 + r.Intn(95))
 		}
+		if n > 0 && n < 1000 && r.Chance(1, 4) {
+			// multi-byte UTF-8 (2-, 3- and 4-byte sequences) spliced in at a random position
+			ins := []string{"é", "ß", "日本", "\u2028", "😀", "\ufffd"}[r.Intn(6)]
+			at := r.Intn(n + 1)
+			b = append(b[:at:at], append([]byte(ins), b[at:]...)...)
+		}
+		if n > 0 && n < 1000 && fd.ParentFile().Syntax() == protoreflect.Proto2 && r.Chance(1, 5) {
+			// proto2 string fields are not required to hold valid UTF-8 and no runtime checks them: stray
+			// continuation bytes, a truncated sequence, a run of invalid bytes
+			ins := [][]byte{{0xff}, {0x80}, {0xc3}, {0xe2, 0x82}, {0xff, 0xfe, 0xfd, 0xfc, 0xfb}, {0xc0, 0xaf}}[r.Intn(6)]
+			at := r.Intn(n + 1)
+			b = append(b[:at:at], append(append([]byte{}, ins...), b[at:]...)...)
+		}
 		return protoreflect.ValueOfString(string(b))
 	case protoreflect.BytesKind:
 		return protoreflect.ValueOfBytes(r.Bytes(blobLen(r)))
